@@ -14,6 +14,12 @@
     F25  `Connection: <name>, close` from an HTTP/1.1 origin → nominated field forwarded
   and, for the flush policy, a zero-length write between the two halves of a split pattern.
 
+  Section E2 is about a whole keep-alive connection (`Flush.Conn`): every response is written through
+  its own fresh `patternFlushWriter` over the connection's one `bufio.Writer`; the flush points of the
+  k-th response depend on that response's writes and pattern only (`c02_conn_flush_points_independent`,
+  `c02_conn_history_irrelevant`), and what the client holds after each write is what a new
+  connection would have delivered plus the earlier responses (`c02_conn_delivery_independent`).
+
   Repaired in the code and therefore proved at full strength here (no exclusions):
     F22  solicited gzip + Content-Length/close: the gunzipped body is re-framed (chunked for an
          HTTP/1.1 exchange, close-delimited otherwise)      → `c02_keepalive_implies_delimited`,
@@ -34,6 +40,7 @@
 import FwdVerif.Lemmas.RespExamples
 import FwdVerif.Lemmas.RespParse
 import FwdVerif.Lemmas.RespFlush
+import FwdVerif.Lemmas.RespFlushConn
 import FwdVerif.Lemmas.RespHeadWF
 
 namespace FwdVerif
@@ -402,6 +409,138 @@ open Flush in
 /-- "data: a\n" | "\n" | "data: b\n\ndata: c": flushes after the 2nd and 3rd write -/
 example : flushes (10, 10) [[100, 97, 116, 97, 58, 32, 97, 10], [10],
     [100, 97, 116, 97, 58, 32, 98, 10, 10, 100, 97, 116, 97, 58, 32, 99]] = [false, true, true] := by
+  decide
+
+/-! ## E2. incremental delivery on a keep-alive connection (one writer per response) -/
+
+open Flush in
+/-- the writer `writeResponse` chooses: an event stream always gets the "\n\n" writer -/
+theorem c02_pattern_event_stream (minor : Nat) (known : Bool) :
+    choosePattern false true minor known = some ssePattern := rfl
+
+open Flush in
+/-- … any other HTTP/1.1 body of unknown length (chunked to the client) the "\r\n" writer, a body of
+    known length none, and a header-only response none -/
+theorem c02_pattern_other (sse : Bool) (minor : Nat) (known : Bool) :
+    choosePattern false false 1 false = some chunkPattern ∧
+      choosePattern false false minor true = none ∧
+      choosePattern true sse minor known = none := by
+  refine ⟨rfl, ?_, rfl⟩
+  simp [choosePattern]
+
+open Flush in
+/-- the flush decisions of the k-th response on a connection are those of that response written
+    alone — a function of ITS writes and ITS pattern; neither the other responses `rs` nor the
+    state `c` the earlier history left behind (stale pattern, carried-over byte, buffer) matter -/
+theorem c02_conn_flush_points_independent (size : Nat) (c : Conn) (rs : List Reply) (k : Nat)
+    (r : Reply) (hk : rs[k]? = some r) :
+    ((c.replies size rs)[k]?).map (List.map Out.flushed) = some (replyFlushes r) :=
+  Conn.replies_flushes size c rs k r hk
+
+open Flush in
+/-- the same as an explicit independence statement: two connections with arbitrary different
+    histories agree on the flush points of a response they have in common -/
+theorem c02_conn_history_irrelevant (size size' : Nat) (c c' : Conn) (pre pre' post post' : List Reply)
+    (r : Reply) :
+    ((c.replies size (pre ++ r :: post))[pre.length]?).map (List.map Out.flushed) =
+      ((c'.replies size' (pre' ++ r :: post'))[pre'.length]?).map (List.map Out.flushed) := by
+  rw [Conn.replies_flushes size c _ pre.length r (by simp),
+    Conn.replies_flushes size' c' _ pre'.length r (by simp)]
+
+open Flush in
+/-- SSE then chunked on one connection (heads abbreviated): the second response is flushed at every
+    CRLF although the first one used "\n\n" — and a response whose predecessor ended in "\n" and
+    which starts with "\n" is not flushed at that write (no carry-over between responses) -/
+example :
+    let sse : Reply := ⟨some ssePattern, [[72, 13, 10], [13, 10], [51, 13, 10], [97, 10, 10], [13, 10], [48, 13, 10], [13, 10]]⟩
+    let chk : Reply := ⟨some chunkPattern, [[72, 13, 10], [13, 10], [49, 13, 10], [98], [13, 10], [48, 13, 10], [13, 10]]⟩
+    let nl : Reply := ⟨some ssePattern, [[97, 10]]⟩
+    let nl2 : Reply := ⟨some ssePattern, [[10, 98], [10], [10]]⟩
+    (Conn.fresh.replies bufSize [sse, chk, nl, nl2]).map (List.map Out.flushed) =
+      [[false, false, false, true, false, false, false, true],
+       [true, true, true, false, true, true, true, true],
+       [false, true],
+       [false, false, true, true]] ∧
+    -- written through the FIRST response's writer nothing of the chunked response would be flushed
+    flushes ssePattern chk.writes = [false, false, false, false, false, false, false] ∧
+    -- and a carried-over "\n" would have flushed the first write of `nl2`
+    flushesFrom ssePattern 10 nl2.writes = [true, false, true] := by
+  decide
+
+open Flush in
+/-- what the client holds after each write of the k-th response is what a new connection would
+    have delivered for that response alone, plus every byte of the earlier responses -/
+theorem c02_conn_delivery_independent (size : Nat) (c : Conn) (rs : List Reply) (k : Nat) (r : Reply)
+    (h0 : c.buf.buffered = 0) (hk : rs[k]? = some r) :
+    (c.replies size rs)[k]? =
+      some ((replyOuts size r).map (Out.shift (c.buf.delivered + repliesSize (rs.take k)))) :=
+  Conn.replies_outs size c rs k r h0 hk
+
+open Flush in
+/-- 3-byte + 2-byte + … writes against a 4-byte `bufio.Writer`: deliveries by overflow and by flush -/
+example :
+    let sse : Reply := ⟨some ssePattern, [[72, 13, 10], [13, 10], [97, 10, 10], [98]]⟩
+    let chk : Reply := ⟨some chunkPattern, [[72], [13, 10], [1, 2, 3, 4, 5, 6, 7]]⟩
+    Conn.fresh.buf.buffered = 0 ∧ [sse, chk][1]? = some chk ∧
+    replyOuts 4 chk = [⟨false, 0⟩, ⟨true, 3⟩, ⟨false, 10⟩, ⟨true, 10⟩] ∧
+    repliesSize ([sse, chk].take 1) = 9 ∧
+    Conn.fresh.replies 4 [sse, chk] =
+      [[⟨false, 0⟩, ⟨false, 4⟩, ⟨true, 8⟩, ⟨false, 8⟩, ⟨true, 9⟩],
+       [⟨false, 9⟩, ⟨true, 12⟩, ⟨false, 19⟩, ⟨true, 19⟩]] := by
+  decide
+
+open Flush in
+/-- a write followed by a flush leaves nothing behind: the client has been given every byte written
+    on the connection so far (all earlier responses and this one up to and including write `i`) -/
+theorem c02_conn_flush_delivers_everything (size : Nat) (c : Conn) (rs : List Reply) (k : Nat)
+    (r : Reply) (outs : List Out) (i : Nat) (o : Out)
+    (hk : rs[k]? = some r) (ho : (c.replies size rs)[k]? = some outs) (hi : outs[i]? = some o)
+    (hf : o.flushed = true) (hlt : i < r.writes.length) :
+    o.delivered = c.buf.total + repliesSize (rs.take k) + (written r.writes i).length :=
+  Conn.replies_flushed_delivers size c rs k r outs i o hk ho hi hf hlt
+
+open Flush in
+/-- every response ends flushed: after the k-th response all bytes of responses 0..k are delivered -/
+theorem c02_conn_response_end_complete (size : Nat) (c : Conn) (rs : List Reply) (k : Nat) (r : Reply)
+    (hk : rs[k]? = some r) :
+    ∃ outs, (c.replies size rs)[k]? = some outs ∧
+      outs[r.writes.length]? =
+        some { flushed := true, delivered := c.buf.total + repliesSize (rs.take (k + 1)) } :=
+  Conn.replies_end size c rs k r hk
+
+open Flush in
+/-- a write containing the response's pattern (the CRLF after a chunk, an event's blank line) is
+    flushed and everything up to it is delivered, whatever preceded the response on the connection -/
+theorem c02_conn_contains_delivered (size : Nat) (c : Conn) (rs : List Reply) (k : Nat) (r : Reply)
+    (pat : Pat) (i : Nat) (p : Bytes)
+    (hk : rs[k]? = some r) (hpat : r.pat = some pat)
+    (hi : r.writes[i]? = some p) (hc : containsPair pat p = true) :
+    ∃ outs o, (c.replies size rs)[k]? = some outs ∧ outs[i]? = some o ∧ o.flushed = true ∧
+      o.delivered = c.buf.total + repliesSize (rs.take k) + (written r.writes i).length :=
+  Conn.replies_contains size c rs k r pat i p hk hpat hi hc
+
+open Flush in
+/-- `c02_flush_after_pattern_partial` on a connection: whenever the bytes the k-th response has
+    written so far end with its pattern (event / chunk complete), the client holds all of them -/
+theorem c02_conn_after_pattern_delivered (size : Nat) (c : Conn) (rs : List Reply) (k : Nat)
+    (r : Reply) (pat : Pat) (i : Nat) (p : Bytes)
+    (hk : rs[k]? = some r) (hpat : r.pat = some pat)
+    (hi : r.writes[i]? = some p) (hne : p ≠ []) (hend : endsWithPair pat (written r.writes i))
+    (hside : 2 ≤ p.length ∨ ∃ q, 0 < i ∧ r.writes[i - 1]? = some q ∧ q ≠ []) :
+    ∃ outs o, (c.replies size rs)[k]? = some outs ∧ outs[i]? = some o ∧ o.flushed = true ∧
+      o.delivered = c.buf.total + repliesSize (rs.take k) + (written r.writes i).length :=
+  Conn.replies_after_pattern size c rs k r pat i p hk hpat hi hne hend hside
+
+open Flush in
+/-- chunked after SSE: the CRLF closing the chunk "b" is write 4 of response 1; hypotheses of
+    `c02_conn_after_pattern_delivered` / `c02_conn_contains_delivered` and the delivered count 20+7 -/
+example :
+    let sse : Reply := ⟨some ssePattern, [[72, 13, 10], [13, 10], [51, 13, 10], [97, 10, 10], [13, 10], [48, 13, 10], [13, 10]]⟩
+    let chk : Reply := ⟨some chunkPattern, [[72, 13, 10], [13, 10], [49, 13, 10], [98], [13, 10], [48, 13, 10], [13, 10]]⟩
+    [sse, chk][1]? = some chk ∧ chk.pat = some chunkPattern ∧ chk.writes[4]? = some [13, 10] ∧
+      containsPair chunkPattern [13, 10] = true ∧ endsWithPair chunkPattern (written chk.writes 4) ∧
+      repliesSize ([sse, chk].take 1) = 18 ∧ (written chk.writes 4).length = 11 ∧
+      ((Conn.fresh.replies bufSize [sse, chk])[1]?.bind (·[4]?)) = some ⟨true, 29⟩ := by
   decide
 
 /-! ## F. gzip -/
